@@ -81,6 +81,19 @@ Theorem C14_transport_fifo : forall c na nc d d', dres_core (dstep c na nc d) = 
 Proof. exact dstep_fifo. Qed.
 Print Assumptions C14_transport_fifo.
 
+(* ---- isolation inside an endpoint: a delivered frame changes only the addressed stream, and whatever
+   one reusable stream does (discarding, serving its reader, queueing, hand-over) leaves every other
+   stream's queue, cache, close flag, buffer and pending read untouched ---- *)
+Theorem C14_deliver_isolated : forall e k i f k' i', other k i k' i' ->
+  get_stream (deliver e k i f) k' i' = get_stream e k' i'.
+Proof. exact deliver_isolated. Qed.
+Print Assumptions C14_deliver_isolated.
+
+Theorem C14_stream_step_isolated : forall e k i e' k' i', stream_step e k i = Some e' -> other k i k' i' ->
+  get_stream e' k' i' = get_stream e k' i'.
+Proof. exact stream_step_isolated. Qed.
+Print Assumptions C14_stream_step_isolated.
+
 (* ---- flow control, against ANY peer: whatever bytes arrive and in whatever order the holders of
    frames consume, drop or partially consume them, the payload held by the multiplexer never exceeds
    read_buffer_size, the number of held frames never exceeds read_frame_count, no frame exceeds
